@@ -21,15 +21,17 @@ Oracle for a corrupted string h' (any string that is not the untouched output of
   * False                                       -> tolerated when h' still has its four ':'-fields (a
                                                    structurally complete but wrong hash); violation when a
                                                    field is missing (that string is malformed beyond doubt)
-  * True                                        -> violation, unless h' parsed INDEPENDENTLY (own splitter,
-                                                   stdlib base64, struct) is a complete scrypt:1 hash whose
-                                                   NON-EMPTY digest of exactly `length` bytes equals
-                                                   hashlib.scrypt recomputed from h'’s own fields.
+  * True                                        -> violation, unless h' parsed INDEPENDENTLY and STRICTLY (exactly
+                                                   four fields, base64 alphabet only, padded, struct) is a
+                                                   complete scrypt:1 hash whose NON-EMPTY digest of exactly
+                                                   `length` bytes equals hashlib.scrypt recomputed from h'’s own
+                                                   fields (until round 8 a lenient reading was tolerated: D20).
 """
 import base64
 import hashlib
 import itertools
 import json
+import re
 import struct
 
 from hypothesis import strategies as st
@@ -65,9 +67,11 @@ ASSUMPTIONS = [
     "returning False for a corrupted string that still has its four fields is tolerated (structurally complete but "
     "wrong hash); only True without an independent recomputation, a non ValueError/TypeError exception, or False "
     "for a string with a missing field is a violation",
-    "a True for a corrupted string is tolerated when the string's own fields (lenient stdlib base64, trailing extra "
-    "field or trailing data ignored) form a consistent hash of the given password with a non-empty digest of exactly "
-    "`length` bytes",
+    "a True for a corrupted string is accepted only when the string is itself a well-formed hash of the given password: "
+    "exactly four fields, scrypt, 1, two padded base64 fields over the base64 alphabet only (non-canonical pad bits "
+    "allowed), six parameter bytes, salt_length + length data bytes, non-empty digest equal to the recomputation; a "
+    "string that only a lenient decoder turns into such a hash (junk characters, white space, data after the padding) "
+    "is malformed and must not verify",
     "salts come from the library's own os.urandom: a replayed round-trip case re-hashes with a new salt",
 ]
 BUDGET_S = {"quick": 150, "thorough": 1500}
@@ -244,6 +248,36 @@ def justified(q, cands):
     return False
 
 
+B64_STRICT = re.compile(rb"[A-Za-z0-9+/]*={0,2}")
+
+
+def strictly_wellformed(q, hs):
+    """True iff hs, read with no tolerance at all, is a complete hash of q: exactly four ':'-fields, 'scrypt', '1', both
+    base64 fields padded to a multiple of four and free of any character outside the base64 alphabet (RFC 4648 section
+    3.3: such characters make the encoding invalid), six parameter bytes, exactly salt_length + length data bytes, a
+    non-empty digest that equals the independent recomputation.  Non-canonical pad bits are not held against the string."""
+    try:
+        parts = hs.encode("utf-8").split(b":")
+    except UnicodeEncodeError:
+        return False
+    if len(parts) != 4 or parts[0] != b"scrypt" or parts[1] != b"1":
+        return False
+    dec = []
+    for f in parts[2:]:
+        if len(f) % 4 or not B64_STRICT.fullmatch(f):
+            return False
+        try:
+            dec.append(base64.b64decode(f))
+        except ValueError:
+            return False
+    if len(dec[0]) != 6:
+        return False
+    N, r, p, sl, dl = struct.unpack(">HBBBB", dec[0])
+    if not (N > 1 and (N & (N - 1)) == 0 and r >= 1 and p >= 1 and dl >= 1 and len(dec[1]) == sl + dl):
+        return False
+    return ref_scrypt(q, dec[1][:sl], N, r, p, dl) == dec[1][sl:]
+
+
 def make_hash(password, salt, N, r, p, dl, sl=None):
     """a well-formed hash string in the documented layout method:version:params:salt+hash (harness side)"""
     sl = len(salt) if sl is None else sl
@@ -416,8 +450,16 @@ def string_case(ctx, S, qspec, hs, meta=None, untouched=None):
             # lenient decoder could still make of it (a cut that only removes base64 padding included)
             out = "accepted"
             S.violation("truncated-hash-accepted", "verify_password(%s, <hash %s>) = %r: %r" % (pw_show(q), meta, val, hs))
-        elif justified(q, cands):
+        elif justified(q, cands) and strictly_wellformed(q, hs):
             out = "true-recomputed"
+        elif justified(q, cands):
+            # a tolerant reader can make a complete hash of it, but the string is not one: characters outside the base64
+            # alphabet, white space, data after the padding ... "a malformed hash string ... never returns True"
+            out = "accepted"
+            S.violation("malformed-hash-verified-after-lenient-decoding",
+                        "verify_password(%s, %r) = %r: the string is not a well-formed hash (four fields, scrypt, 1, two "
+                        "padded base64 fields over the base64 alphabet only, 6 parameter bytes, salt_length + length data "
+                        "bytes) - a lenient base64 decoder dropped the damage" % (pw_show(q), hs, val))
         else:
             out = "accepted"
             empty = bool(cands) and all(c["dl"] == 0 or len(c["rest"]) == 0 for c in cands)
